@@ -202,3 +202,36 @@ Proof.
   - apply den_pos; lra.
   - apply svfD_on_circle; lra.
 Qed.
+
+(** * outside the guard: a requested frequency below fs/10000 is clamped — the corner then sits at
+    fs/10000 hertz, not at the requested frequency (witness: 10 Hz at 192 kHz is realised at 19.2 Hz) *)
+Local Open Scope R_scope.
+Lemma filter_coeffs_clamped_low : forall fc res fs,
+    0 < fs -> fc / fs < lit_1e4 ->
+    filter_coeffs PI lit_1e4 lit_half lit_1p9 tan fc res (1 / fs) =
+    (svf_a1 (prewarp (lit_1e4 * fs) fs) (filter_k res), svf_a2 (prewarp (lit_1e4 * fs) fs) (filter_k res),
+     svf_a3 (prewarp (lit_1e4 * fs) fs) (filter_k res), filter_k res).
+Proof.
+  intros fc res fs Hfs Hf. unfold filter_coeffs. change (oZ 0 : R) with 0. change (oZ 1 : R) with 1. change (oZ 2 : R) with 2.
+  cbn [odiv omul oadd osub Ops_R]. rewrite one_over_inv by lra.
+  rewrite !oclamp_R by (unfold lit_1e4, lit_half; lra).
+  assert (E : clampR (fc / fs) lit_1e4 lit_half = lit_1e4).
+  { unfold clampR. rewrite Rmin_right by (unfold lit_1e4, lit_half in *; lra). apply Rmax_left. lra. }
+  rewrite E. unfold prewarp. replace (PI * (lit_1e4 * fs) / fs) with (PI * lit_1e4) by (field; lra).
+  reflexivity.
+Qed.
+Theorem filter_low_cutoff_clamped_refuted :
+  exists fc fs res : R,
+    0 < fs /\ 0 < fc /\ fc / fs < lit_1e4 /\
+    filter_coeffs PI lit_1e4 lit_half lit_1p9 tan fc res (1 / fs) =
+    filter_coeffs PI lit_1e4 lit_half lit_1p9 tan (lit_1e4 * fs) res (1 / fs) /\
+    lit_1e4 * fs = 96 / 5 /\ fc = 10 /\ prewarp fc fs < prewarp (lit_1e4 * fs) fs.
+Proof.
+  exists 10, 192000, 0.
+  assert (H1 : 10 / 192000 < lit_1e4) by (unfold lit_1e4; lra).
+  split; [lra|]. split; [lra|]. split; [exact H1|]. split; [|split; [unfold lit_1e4; lra|split; [reflexivity|]]].
+  - rewrite filter_coeffs_clamped_low by (try exact H1; lra).
+    rewrite filter_coeffs_R by (unfold lit_1e4, lit_half; lra). reflexivity.
+  - unfold prewarp. pose proof PI_RGT_0. pose proof PI_4 as P4.
+    apply tan_increasing; unfold lit_1e4; try nra.
+Qed.
